@@ -307,7 +307,7 @@ impl World {
         let mut net = [0u8; 32];
         for c in net.chunks_mut(8) { c.copy_from_slice(&seed_rng.next_u64().to_be_bytes()); }
         let now = 1_000_000u64 + seed_rng.below(1000);
-        e.ledger().with_mut(|l| { l.network_id = net; l.timestamp = now; l.sequence_number = 100; });
+        e.ledger().with_mut(|l| { l.network_id = net; l.timestamp = now; l.sequence_number = 100; l.min_persistent_entry_ttl = 100_000_000; l.min_temp_entry_ttl = 16; l.max_entry_ttl = 200_000_000; });
         let mut addrs = std::vec::Vec::new();
         let mut grp = |n: usize, f: &mut dyn FnMut() -> Address, addrs: &mut std::vec::Vec<Address>| -> std::vec::Vec<usize> {
             (0..n).map(|_| { addrs.push(f()); addrs.len() - 1 }).collect()
@@ -667,6 +667,21 @@ impl World {
             if self.isc(i).key_allowed_topic(&self.bytes(&self.keys[k].pk), &self.keys[k].scheme, &t) { cands.push((i, k, t)); } } } }
         if cands.is_empty() { None } else { Some(*rng.pick(&cands)) }
     }
+    /// genuine claim valid far into the future (survives every time jump of a trace)
+    fn far_claim(&mut self, d: usize, i: usize, t: u32, k: usize) -> ClaimSpec {
+        let data = self.data_with(self.now, self.now + 20_000_000_000, &[9, t as u8]);
+        let nonce = self.nonce(i, d, t);
+        let net = self.net;
+        let msg = self.message(&net, i, d, t, nonce, &data);
+        let sig = self.sign(k, &msg);
+        ClaimSpec { topic: t, scheme: self.keys[k].scheme, issuer: i, sig, data, uri: 0 }
+    }
+    /// n ledgers close (sequence += n) while dt seconds pass
+    fn ledger(&mut self, n_: u32, dt: u64) {
+        self.now += dt; let t = self.now;
+        self.e.ledger().with_mut(|l| { l.sequence_number += n_; l.timestamp = t; });
+        self.record("ledger", format!("Ledger {} {}", n_, dt), "(Ok VUnit)".into());
+    }
     // ---------------- claims: genuine and defective ----------------
     fn data_with(&self, created: u64, until: u64, payload: &[u8]) -> std::vec::Vec<u8> {
         let mut v = created.to_be_bytes().to_vec(); v.extend_from_slice(&until.to_be_bytes()); v.extend_from_slice(payload); v
@@ -674,7 +689,7 @@ impl World {
     /// claim of issuer i about identity d for topic t signed by key k; `defect` selects what is wrong with it
     fn make_claim(&mut self, rng: &mut Rng, d: usize, i: usize, t: u32, k: usize, defect: u32) -> ClaimSpec {
         let payload: std::vec::Vec<u8> = (0..rng.below(4)).map(|_| rng.below(256) as u8).collect();
-        let until = match defect { 1 => self.now, 2 => self.now.saturating_sub(1 + rng.below(50)), 3 => self.now + 1, _ => self.now + 1 + rng.below(400) };
+        let until = match defect { 1 => self.now, 2 => self.now.saturating_sub(1 + rng.below(50)), 3 => self.now + 1, _ => if rng.chance(2, 5) { self.now + 1_000_000_000 + rng.below(1000) } else { self.now + 1 + rng.below(400) } };
         let mut data = self.data_with(self.now.saturating_sub(rng.below(100)), until, &payload);
         if defect == 4 { data.truncate(rng.below(16) as usize); }
         let nonce = self.nonce(i, d, t);
@@ -758,6 +773,33 @@ fn limit_scenario(id: usize, rng: &mut Rng) -> TraceResult {
             w.allow_key(i0, &[1 + MAX_KEYS_PER_TOPIC as u8, 7], c0, ED25519, 1); w.allow_key(i0, &[1, 7], c0, ED25519, 1);
             w.finish("MAX_KEYS_PER_TOPIC")
         }
+        3 => { // long gaps: whatever was set must still be there, however many ledgers close without anybody reading it
+            let mut w = World::new(rng, &std_sizes());
+            let (c0, r0) = (w.ctis[0], w.irss[0]);
+            let (i0, i1) = (w.issuers[0], w.issuers[1]);
+            let (d0, d1) = (w.idents[0], w.idents[1]);
+            let (a0, a1, a2) = (w.accounts[0], w.accounts[1], w.accounts[2]);
+            fixture(&mut w, &[1, 2], &[(i0, std::vec![1, 2]), (i1, std::vec![1])]);
+            let c1 = w.far_claim(d0, i0, 1, 0); w.add_claim(d0, &c1);
+            let c2 = w.far_claim(d0, i0, 2, 0); w.add_claim(d0, &c2); w.verify(a0);
+            for g in [20u32, 20_000, 600_000, 4_000_000] { w.ledger(g, 5 * g as u64); }
+            w.verify(a0);
+            w.set_revoked(i0, d0, 1, &c1.data.clone(), true); w.ledger(600_000, 3_000_000); w.verify(a0);   // still revoked
+            w.ledger(20, 100); w.set_revoked(i0, d0, 1, &c1.data.clone(), false); w.ledger(20_000, 0); w.verify(a0);
+            w.set_revoked(i0, d1, 2, &c2.data.clone(), true); w.ledger(4_000_000, 0);                          // a flag nobody asks about
+            w.invalidate(i0, d0, 1); w.ledger(4_000_000, 20_000_000); w.verify(a0);                            // still invalidated
+            let c3 = w.far_claim(d0, i0, 1, 0); w.add_claim(d0, &c3); w.ledger(600_000, 0); w.verify(a0);
+            let (pk, sc) = (w.keys[0].pk.clone(), w.keys[0].scheme);
+            w.remove_key(i0, &pk, c0, sc, 2); w.ledger(600_000, 10); w.verify(a0);                              // key still removed
+            w.allow_key(i0, &pk, c0, sc, 2); w.ledger(20_000, 0); w.verify(a0);
+            w.update_issuer(c0, i0, &[1]); w.ledger(600_000, 7); w.verify(a0);                                 // still not trusted for topic 2
+            w.update_issuer(c0, i0, &[1, 2]); w.remove_issuer(c0, i1); w.add_topic(c0, 3); w.ledger(4_000_000, 0); w.verify(a0);
+            w.remove_topic(c0, 3); w.ledger(600_000, 0); w.verify(a0);
+            w.remove_claim(d0, i0, 2); w.ledger(600_000, 0); w.verify(a0); w.add_claim(d0, &c2); w.ledger(20, 0);
+            w.remove_identity(r0, a1); w.recover_identity(r0, a0, a2); w.ledger(4_000_000, 1); w.verify(a0); w.verify(a2); w.verify(a1);
+            w.set_cti(w.ctis[1]); w.ledger(600_000, 0); w.verify(a2); w.set_cti(c0); w.ledger(600_000, 0); w.verify(a2);
+            w.finish("long gaps: every stored item persists")
+        }
         _ => { // MAX_REGISTRIES_PER_KEY: 22 (topic, registry) pairs for one key
             let sz = Sizes { ctis: 2, irss: 1, idents: 1, issuers: 1, bogus: 0, accounts: 1, topics: (1..=11).collect(), keys_per_scheme: 1 };
             let mut w = World::new(rng, &sz);
@@ -771,7 +813,7 @@ fn limit_scenario(id: usize, rng: &mut Rng) -> TraceResult {
         }
     }
 }
-const NLIMITS: usize = 3;
+const NLIMITS: usize = 4;
 
 fn scenario(id: usize, rng: &mut Rng) -> TraceResult {
     let sz = if id == 6 { Sizes { ctis: 1, irss: 1, idents: 1, issuers: 1, bogus: 1, accounts: 1, topics: (101..=116).collect(), keys_per_scheme: 1 } } else { std_sizes() };
@@ -964,6 +1006,7 @@ fn random_trace(idx: usize, rng: &mut Rng, thorough: bool) -> TraceResult {
                 else { let data = w.data_with(1, 2, &[rng.below(3) as u8]); w.set_revoked(ri, d, t, &data, rng.chance(1, 2)); }
             }
             82..=86 => { // time: land on / around the expiry of a held claim
+                if rng.chance(2, 5) { let g = *rng.pick(&[20u32, 20_000, 600_000, 4_000_000]); let dt = match rng.below(3) { 0 => 0, 1 => rng.below(50), _ => 5 * g as u64 }; w.ledger(g, dt); continue; }
                 let mut dt = rng.below(60);
                 if !held.is_empty() && rng.chance(2, 3) { let hc = &rng.pick(&held).3; if hc.data.len() >= 16 { let mut u = [0u8; 8]; u.copy_from_slice(&hc.data[8..16]); let until = u64::from_be_bytes(u);
                     if until > w.now { dt = (until - w.now + 1).saturating_sub(rng.below(3)); } } }
